@@ -1026,13 +1026,22 @@ func Equal(a, b Value) (eq, known bool) {
 		if y, ok := b.(Bool); ok {
 			return x == y, true
 		}
+		if _, ok := b.(Nil); ok {
+			return false, true // a boxed scalar is a non-nil interface
+		}
 	case Int:
 		if y, ok := b.(Int); ok {
 			return x == y, true
 		}
+		if _, ok := b.(Nil); ok {
+			return false, true
+		}
 	case Str:
 		if y, ok := b.(Str); ok {
 			return x == y, true
+		}
+		if _, ok := b.(Nil); ok {
+			return false, true
 		}
 		if _, ok := b.(*Tok); ok {
 			return false, true // a literal never equals a symbolic string token
